@@ -35,6 +35,7 @@ def replay(pid: str, path: str) -> int:
             d = engine.diff_obs(real[m], model[m])
             if d:
                 print(f"[{m}] model and implementation differ on {d}")
+        props.set_case(case)
         fails = getattr(props, "oracle_" + pid)(case, real, model) if hasattr(props, "oracle_" + pid) else []
     else:
         from . import registry
